@@ -2,9 +2,15 @@
 import os, marshal, enum, datetime, math
 from typing import List, Dict, Union, Optional
 import objtypes, moment, records
+try:
+  if os.environ.get("VERIF_NATIVE"):
+    raise ImportError
+  from crosshair.core import deep_realize
+except ImportError:
+  deep_realize = lambda x: x
 
 THOROUGH = os.environ.get("VERIF_TIER") == "thorough"
-SL = 3 if THOROUGH else 2
+SL = 8 if THOROUGH else 5
 S = Union[int, str, None, bool, float]
 
 
@@ -28,24 +34,112 @@ def _safe(x):
   return True
 
 
+NATIVE = bool(os.environ.get("VERIF_NATIVE"))
+
+
 def _rt(v):
   e = objtypes.encode_object(v)
   if not _safe(e):
     return False
-  b = marshal.dumps(e, 2)
+  if NATIVE:
+    # marshal is a C function: it is exercised on concrete values only (enumerated obligations, replays); in the
+    # symbolic runs marshal-safety is decided by _safe, the exact-builtin-types predicate marshal implements
+    b = marshal.dumps(e, 2)
   d = objtypes.decode_object(e)
   e2 = objtypes.encode_object(d)
-  if isinstance(e, float) and e != e:
-    return isinstance(e2, float) and e2 != e2
   try:
-    return e2 == e
+    return _deq(e2, e)
   except RecursionError:
     return marshal.dumps(e2, 2) == b
 
 
-def scalar(v: S) -> bool:
+def _deq(a, b):
+  """equality of encoded forms in which NaN equals NaN"""
+  if isinstance(a, float) and isinstance(b, float):
+    return a == b or (a != a and b != b)
+  if isinstance(a, (list, tuple)) and isinstance(b, (list, tuple)):
+    return type(a) == type(b) and len(a) == len(b) and all(_deq(x, y) for x, y in zip(a, b))
+  if isinstance(a, dict) and isinstance(b, dict):
+    return len(a) == len(b) and all(k in b and _deq(a[k], b[k]) for k in a)
+  return type(a) == type(b) and a == b
+
+
+def scalar_int(v: int) -> bool:
   """
-  pre: not isinstance(v, str) or len(v) <= SL
+  post: _
+  """
+  return _rt(v) and _rt([v]) and _rt({"k": v})
+
+
+def scalar_int_short(v: int) -> bool:
+  """
+  pre: -(1 << 31) - 2 <= v <= (1 << 31) + 2
+  post: _
+  """
+  return _rt(v)
+
+
+def scalar_int_long(v: int) -> bool:
+  """
+  pre: v >= (1 << 31) or v < -(1 << 31)
+  post: _
+  """
+  return _rt(v)
+
+
+def scalar_float(v: float) -> bool:
+  """
+  post: _
+  """
+  return _rt(v) and _rt([v])
+
+
+def scalar_str(v: str) -> bool:
+  """
+  pre: len(v) <= SL
+  post: _
+  """
+  return _rt(v) and _rt([v])
+
+
+def str_key(v: str) -> bool:
+  """
+  pre: len(v) <= 1
+  post: _
+  """
+  return _rt({v: 1})
+
+
+def scalar_bool_none(v: Optional[bool]) -> bool:
+  """
+  post: _
+  """
+  return _rt(v) and _rt((v,))
+
+
+def list_of_ints(v: List[Optional[int]]) -> bool:
+  """
+  pre: len(v) <= 3
+  pre: all(x is None or -(1 << 31) - 2 <= x <= (1 << 31) + 2 for x in v)
+  post: _
+  """
+  return _rt(v) and _rt(tuple(v))
+
+
+def list_of_strs(v: List[str]) -> bool:
+  """
+  pre: len(v) <= 2
+  pre: all(len(x) <= 1 for x in v)
+  post: _
+  """
+  return _rt(v) and _rt(tuple(v))
+
+
+def dict_of_ints(v: Dict[str, int]) -> bool:
+  """
+  pre: len(v) <= 2
+  pre: all(len(k) <= 1 for k in v)
+  pre: all(-(1 << 31) - 2 <= x <= (1 << 31) + 2 for x in v.values())
   post: _
   """
   return _rt(v)
@@ -80,12 +174,11 @@ def nested(v: List[Union[int, None, List[Union[int, str]], Dict[str, int]]]) -> 
   return _rt(v) and _rt({"k": v})
 
 
-def big_ints(k: int) -> bool:
-  """
-  pre: -3 <= k <= 3
-  post: _
-  """
-  return all(_rt(b + k) for b in (2 ** 31, -2 ** 31, 2 ** 53, 2 ** 63, 10 ** 30, 0))
+BIG = (2 ** 31, -2 ** 31, 2 ** 53, 2 ** 63, 10 ** 30, 0)
+
+
+def big_ints(b: int, k: int) -> bool:
+  return _rt(BIG[b] + k) and _rt([BIG[b] + k]) and _rt({"k": BIG[b] + k})
 
 
 class StrSub(str):
@@ -137,25 +230,58 @@ def _specials():
 SPECIALS = _specials()
 
 
-def special(k: int) -> bool:
-  """
-  pre: 0 <= k < len(SPECIALS)
-  post: _
-  """
+def special(k):
   return _rt(SPECIALS[k])
 
 
+def special_in_container(k, c):
+  v = SPECIALS[k]
+  return _rt([v, 1] if c == 0 else (v,) if c == 1 else {"k": v} if c == 2 else [[v]])
+
+
+def _name(v):
+  import re
+  try:
+    r = repr(v)
+  except Exception:
+    r = type(v).__name__
+  return re.sub(r"[^0-9A-Za-z]+", "_", r)[:80]
+
+
+def classify(func, args, kw):
+  """names the value class of a counterexample (matched by known_findings.json)"""
+  k = kw.get("k", args[0] if args else None)
+  if func in ("special", "special_in_container"):
+    return func + ":" + _name(SPECIALS[k])
+  return None
+
+
 OBLIGATIONS = [
-  {"func": "scalar", "cond_timeout": 200, "desc": "int (unbounded) | float | str len <= %d | bool | None" % SL},
-  {"func": "list_of_scalars", "cond_timeout": 300, "desc": "lists/tuples of <= 2 scalars"},
-  {"func": "dict_of_scalars", "cond_timeout": 300, "desc": "dicts with <= 2 one-char str keys"},
-  {"func": "nested", "cond_timeout": 300, "desc": "lists of ints / None / lists / dicts, also inside a dict"},
-  {"func": "big_ints", "cond_timeout": 100, "desc": "ints around 2^31, 2^53, 2^63, 10^30"},
-  {"func": "special", "cond_timeout": 200, "desc": "%d special values: subclasses of str/int/float, IntEnum, odd dict keys, sets, bytes, recursive and "
-                                               "3000-deep lists, dates, naive and tz-aware datetimes incl. year 9999 and year 1, errors with user input, "
-                                               "records stand-ins, surrogates" % len(SPECIALS)},
+  {"func": "scalar_int_short", "cond_timeout": 60, "desc": "every int in [-2^31-2, 2^31+2] (both sides of the 32-bit cut)"},
+  {"func": "scalar_int_long", "cond_timeout": 30, "desc": "every int outside 32 bits (['U', str(v)] form; str(int) is hard for z3: counterexample search only)"},
+  {"func": "scalar_int", "cond_timeout": 30, "desc": "unbounded int bare, in a list, as a dict value (counterexample search only)"},
+  {"func": "scalar_float", "cond_timeout": 30, "desc": "float incl. nan/inf (real-arithmetic model: CrossHair never reports 'confirmed' for floats)"},
+  {"func": "scalar_str", "cond_timeout": 60, "desc": "every str of len <= %d, bare and in a list" % SL},
+  {"func": "scalar_bool_none", "cond_timeout": 30, "desc": "True / False / None"},
+  {"func": "list_of_ints", "cond_timeout": 100, "desc": "lists and tuples of <= 3 32-bit-ish ints or None"},
+  {"func": "list_of_strs", "cond_timeout": 60, "desc": "lists and tuples of <= 2 one-char strs"},
+  {"func": "dict_of_ints", "cond_timeout": 60, "desc": "dicts with <= 2 one-char str keys and int values"},
+  {"func": "list_of_scalars", "cond_timeout": 100, "desc": "lists/tuples of <= 2 scalars of mixed type"},
+  {"func": "dict_of_scalars", "cond_timeout": 100, "desc": "dicts with <= 2 one-char str keys and mixed scalar values"},
+  {"func": "nested", "cond_timeout": 100, "desc": "lists of ints / None / lists / dicts, also inside a dict"},
+]
+_SPECIAL_DESC = ("%d special values: subclasses of str/int/float, IntEnum, odd dict keys, sets, bytes, recursive and 3000-deep lists, dates, naive "
+                 "and tz-aware datetimes incl. year 9999 and year 1, errors with user input, records stand-ins, surrogates" % len(SPECIALS))
+ENUM = [
+  {"func": "special", "domains": {"k": list(range(len(SPECIALS)))}, "shard_by": None, "max_s": 200, "desc": _SPECIAL_DESC},
+  {"func": "special_in_container", "domains": {"k": list(range(len(SPECIALS))), "c": [0, 1, 2, 3]}, "shard_by": "c", "max_s": 200,
+   "desc": "each special value inside a list, a tuple, a dict value and a nested list"},
+  {"func": "big_ints", "domains": {"b": list(range(len(BIG))), "k": list(range(-3, 4))}, "shard_by": None, "max_s": 100,
+   "desc": "ints within 3 of 2^31, -2^31, 2^53, 2^63, 10^30, 0 (bare, in a list, in a dict)"},
 ]
 BOUNDS = {"strings": "len <= %d" % SL, "containers": "len <= 2, depth <= 2 (+ one 3000-deep list)", "specials": len(SPECIALS)}
 FILES = ["sandbox/grist/objtypes.py", "sandbox/grist/actions.py"]
 ASSUMPTIONS = ["marshal-safety = the encoded form consists of exact builtin str/int/float/bool/None/list/tuple/dict-with-str-keys and "
-               "marshal.dumps(encoded, 2) succeeds (the transport in sandbox.py)"]
+               "marshal.dumps(encoded, 2) succeeds (the transport in sandbox.py)",
+               "catalogue values (specials, boundary ints) are concrete objects no symbolic type describes: they are enumerated (z3 AllSAT over "
+               "the index holes) and run natively"]
